@@ -71,6 +71,14 @@ type LV struct {
 	Ref   Term   // field: object ref; elem: base; cell: ref
 	Idx   Term   // elem: index
 	ElemT types.Type
+	Alloc interface{} // local: the *ssa.Alloc
+	Path  []pathElem  // local: path into the aggregate value held in the cell
+}
+
+type pathElem struct {
+	field int
+	idx   Term
+	isIdx bool
 }
 
 func (v *FV) valType() types.Type { return v.T }
@@ -443,18 +451,90 @@ func (e *Enc) bitop(op token.Token, x, y Term, t types.Type) Term {
 			return app(x.Sort, "bvand", x, app(x.Sort, "bvnot", y))
 		}
 	}
-	// int mode
-	if op == token.AND {
-		if c, ok := termConst(y); ok {
-			if k, ok := isMask(c); ok {
-				return app(SInt, "mod", x, intLit(new(big.Int).Lsh(big.NewInt(1), uint(k))))
+	// int mode: exact encodings where they stay linear
+	w, signed, _ := intInfo(t)
+	if isMath(t) {
+		w, signed = 0, true
+	}
+	bit := func(v Term, i int) Term {
+		p := intLit(new(big.Int).Lsh(big.NewInt(1), uint(i)))
+		return app(SInt, "mod", app(SInt, "div", v, p), intLit64(2))
+	}
+	pow := func(i int) Term { return intLit(new(big.Int).Lsh(big.NewInt(1), uint(i))) }
+	cx, xConst := termConst(x)
+	cy, yConst := termConst(y)
+	if xConst && !yConst && op != token.AND_NOT {
+		x, y, cx, cy, xConst, yConst = y, x, cy, cx, yConst, xConst
+	}
+	if yConst && cy.Sign() >= 0 && !signed {
+		switch op {
+		case token.AND:
+			if k, ok := isMask(cy); ok {
+				return app(SInt, "mod", x, pow(k))
+			}
+			// sum over the set bits of the constant
+			if popcount(cy) <= 16 {
+				terms := []Term{intLit64(0)}
+				for i := 0; i < cy.BitLen(); i++ {
+					if cy.Bit(i) == 1 {
+						terms = append(terms, app(SInt, "*", bit(x, i), pow(i)))
+					}
+				}
+				return app(SInt, "+", terms...)
+			}
+		case token.OR:
+			if popcount(cy) <= 16 {
+				terms := []Term{x}
+				for i := 0; i < cy.BitLen(); i++ {
+					if cy.Bit(i) == 1 {
+						terms = append(terms, app(SInt, "*", app(SInt, "-", intLit64(1), bit(x, i)), pow(i)))
+					}
+				}
+				return app(SInt, "+", terms...)
+			}
+		case token.XOR:
+			if popcount(cy) <= 16 {
+				terms := []Term{x}
+				for i := 0; i < cy.BitLen(); i++ {
+					if cy.Bit(i) == 1 {
+						// flipping bit i: +2^i if it was 0, -2^i if it was 1
+						terms = append(terms, app(SInt, "*", app(SInt, "-", intLit64(1), app(SInt, "*", intLit64(2), bit(x, i))), pow(i)))
+					}
+				}
+				return app(SInt, "+", terms...)
+			}
+		case token.AND_NOT:
+			if popcount(cy) <= 16 {
+				terms := []Term{x}
+				for i := 0; i < cy.BitLen(); i++ {
+					if cy.Bit(i) == 1 {
+						terms = append(terms, app(SInt, "-", app(SInt, "*", bit(x, i), pow(i))))
+					}
+				}
+				return app(SInt, "+", terms...)
 			}
 		}
-		if c, ok := termConst(x); ok {
-			if k, ok := isMask(c); ok {
-				return app(SInt, "mod", y, intLit(new(big.Int).Lsh(big.NewInt(1), uint(k))))
+	}
+	if !signed && w > 0 && w <= 16 && !xConst && !yConst {
+		// both variable, narrow type: bit by bit
+		terms := []Term{intLit64(0)}
+		for i := 0; i < w; i++ {
+			bx := mkEq(bit(x, i), intLit64(1))
+			by := mkEq(bit(y, i), intLit64(1))
+			var c Term
+			switch op {
+			case token.AND:
+				c = mkAnd(bx, by)
+			case token.OR:
+				c = mkOr(bx, by)
+			case token.XOR:
+				c = mkNot(mkEq(bx, by))
+			case token.AND_NOT:
+				c = mkAnd(bx, mkNot(by))
 			}
+			terms = append(terms, mkIte(c, pow(i), intLit64(0)))
 		}
+		return app(SInt, "+", terms...)
 	}
 	switch op {
 	case token.AND:
@@ -467,6 +547,16 @@ func (e *Enc) bitop(op token.Token, x, y Term, t types.Type) Term {
 		return app(SInt, "iandnot", x, y)
 	}
 	panic("bitop")
+}
+
+func popcount(v *big.Int) int {
+	n := 0
+	for i := 0; i < v.BitLen(); i++ {
+		if v.Bit(i) == 1 {
+			n++
+		}
+	}
+	return n
 }
 
 // shift implements Go shift semantics (counts >= width give 0 / sign fill).
